@@ -116,8 +116,9 @@ func C14(c *Ctx) {
 			}
 			// lookup
 			lookup := false
+			inl := inlineLocals(res.Fn, map[string]bool{iv: true})
 			ast.Inspect(res.Fn.Body, func(n ast.Node) bool {
-				if ix, ok := n.(*ast.IndexExpr); ok && nospace(ix) == "p.recoveryStack["+iv+"]["+param+".label]" {
+				if ix, ok := n.(*ast.IndexExpr); ok && (nospace(ix) == "p.recoveryStack["+iv+"]["+param+".label]" || inl(ix) == "p.recoveryStack["+iv+"]["+param+".label]") {
 					lookup = true
 				}
 				return true
